@@ -178,8 +178,59 @@ func r20ab(c *an.Ctx, summ map[string]string) {
 	c.Subject()
 	var got []string
 	okEval := true
-	for _, t := range tests {
-		cv, ok := eval(t.Call.Args[1], 0)
+	// the candidates in the order they are tested: one test site per candidate in a dominance chain, or one test site in
+	// a range loop over a slice literal (elements in index order)
+	var seq []ssa.Value
+	chain := true
+	if len(tests) == 1 && an.InLoop(tests[0].Block()) {
+		chain = false
+		if ld, ok := an.Strip(tests[0].Call.Args[1]).(*ssa.UnOp); ok && ld.Op == token.MUL {
+			if ia, ok := ld.X.(*ssa.IndexAddr); ok {
+				inRange := false
+				if h, _ := an.EnclosingLoop(tests[0].Block()); h != nil && strings.HasPrefix(h.Comment, "rangeindex") {
+					if bo, isBo := ia.Index.(*ssa.BinOp); isBo && bo.Block() == h {
+						inRange = true // the range statement's own index: every element, ascending
+					}
+				}
+				if sl, ok := an.Strip(ia.X).(*ssa.Slice); ok && inRange && sl.Low == nil && sl.High == nil {
+					if arr, ok := sl.X.(*ssa.Alloc); ok && arr.Referrers() != nil {
+						elems := map[int64]ssa.Value{}
+						for _, r := range *arr.Referrers() {
+							if ea, ok := r.(*ssa.IndexAddr); ok && ea.Referrers() != nil {
+								if k, isK := an.ConstInt(ea.Index); isK {
+									for _, rr := range *ea.Referrers() {
+										if st, ok := rr.(*ssa.Store); ok && st.Addr == ssa.Value(ea) {
+											elems[k] = st.Val
+										}
+									}
+								}
+							}
+						}
+						chain = true
+						for k := int64(0); k < int64(len(elems)); k++ {
+							v, has := elems[k]
+							if !has {
+								chain = false
+								break
+							}
+							seq = append(seq, v)
+						}
+					}
+				}
+			}
+		}
+	} else {
+		for _, t := range tests {
+			seq = append(seq, t.Call.Args[1])
+		}
+		for i := 1; i < len(tests); i++ {
+			if !an.Dominates(tests[i-1], tests[i]) {
+				chain = false
+			}
+		}
+	}
+	for _, v := range seq {
+		cv, ok := eval(v, 0)
 		if !ok {
 			okEval = false
 			got = append(got, "?")
@@ -188,12 +239,6 @@ func r20ab(c *an.Ctx, summ map[string]string) {
 		got = append(got, "("+cv.rt+","+cv.role+")")
 	}
 	wantSeq := "(orig,orig) (ANY,orig) (orig,any) (ANY,any)"
-	chain := true
-	for i := 1; i < len(tests); i++ {
-		if !an.Dominates(tests[i-1], tests[i]) {
-			chain = false
-		}
-	}
 	c.Ob("(*apricot/local.Service).resolveComponentQuery|fallback-order", fn.Pos(), okEval && chain && strings.Join(got, " ") == wantSeq,
 		"existence tests must be made in the order %s; found %s", wantSeq, strings.Join(got, " "))
 
@@ -219,7 +264,7 @@ func r20ab(c *an.Ctx, summ map[string]string) {
 					errK = ex
 				}
 			}
-			if errK == nil || e != errK {
+			if errK == nil || (e != errK && !an.IsNilConst(e)) {
 				continue
 			}
 			known := false
